@@ -198,7 +198,7 @@ def key_name(h):
     return re.sub(r"\W", "_", h)
 
 
-def _prune(vdir, keep_s=6 * 3600, max_bytes=3 << 30):
+def _prune(vdir, keep_s=6 * 3600, max_bytes=3 << 29):
     """Drop objects/executables not used recently when the cache grows large."""
     files = []
     for root, _, fs in os.walk(vdir):
